@@ -85,6 +85,7 @@ fn wkind_parse(v: &Value) -> WKind {
         "Ramp" => WKind::Ramp,
         "InvSigma" => WKind::InvSigma,
         "Tiny" => WKind::Tiny,
+        "Huge" => WKind::Huge,
         "Spread" => WKind::Spread,
         o => panic!("wkind {}", o),
     }
@@ -291,9 +292,13 @@ fn run_case<T: Sc>(ctx: &Ctx, c: &Case, prop: &str, tt: &TTable, seed: u64) {
         return;
     }
     let sigma2 = stats.reduced_chi2().d();
+    // reference sigma^2 (H^T H)^-1 from a one-sided Jacobi SVD of the column-scaled H (accurate
+    // also for badly scaled H); the comparison tolerance is the NORMWISE bound that every backward
+    // stable inversion of H^T H meets:  |dX| <= K eps kappa_2(H^T H) max|X|
     let norms: Vec<f64> = (0..dim).map(|a| h.column(a).norm()).collect();
     let usable = norms.iter().all(|&x| x > 0.0 && x.is_finite()) && sigma2 > 0.0;
     let mut kappa = f64::INFINITY;
+    let mut kappa_scaled = f64::INFINITY;
     let mut cov_ref = DMatrix::<f64>::zeros(dim, dim);
     if usable {
         let mut hs = h.clone();
@@ -303,8 +308,10 @@ fn run_case<T: Sc>(ctx: &Ctx, c: &Case, prop: &str, tt: &TTable, seed: u64) {
             }
         }
         let sv = refla::svd_jacobi(&hs);
-        if sv.smin() > 0.0 {
-            kappa = (sv.smax() / sv.smin()).powi(2);
+        let su = refla::svd_jacobi(&h);
+        if sv.smin() > 0.0 && su.smin() > 0.0 {
+            kappa_scaled = (sv.smax() / sv.smin()).powi(2);
+            kappa = (su.smax() / su.smin()).powi(2);
             let mut d = DMatrix::<f64>::zeros(dim, dim);
             for a in 0..dim {
                 d[(a, a)] = 1.0 / (sv.s[a] * sv.s[a]);
@@ -317,8 +324,10 @@ fn run_case<T: Sc>(ctx: &Ctx, c: &Case, prop: &str, tt: &TTable, seed: u64) {
             }
         }
     }
-    let tol_rel = 1024.0 * eps * kappa;
-    let comparable = tol_rel <= 0.05;
+    let _ = kappa_scaled;
+    let tol_rel = 4096.0 * eps * kappa;
+    let comparable = tol_rel <= 0.25;
+    let ref_max = refla::maxabs(&cov_ref);
     if prop == "C13" {
         ctx.with(|s| s.inc("ok_checked"));
         if comparable {
@@ -326,8 +335,7 @@ fn run_case<T: Sc>(ctx: &Ctx, c: &Case, prop: &str, tt: &TTable, seed: u64) {
             let mut at = (0, 0);
             for a in 0..dim {
                 for b in 0..dim {
-                    let sc = (cov_ref[(a, a)] * cov_ref[(b, b)]).sqrt();
-                    let r = (cov[(a, b)] - cov_ref[(a, b)]).abs() / (tol_rel * sc);
+                    let r = (cov[(a, b)] - cov_ref[(a, b)]).abs() / (tol_rel * ref_max);
                     if r > worst || r.is_nan() {
                         worst = r;
                         at = (a, b);
@@ -363,8 +371,7 @@ fn run_case<T: Sc>(ctx: &Ctx, c: &Case, prop: &str, tt: &TTable, seed: u64) {
                     ctx.with(|s| s.violate("C13", "negative-variance", cj(), format!("cov[{0},{0}] = {1:e}", a, cov[(a, a)])));
                 }
                 for b in 0..dim {
-                    let sc = (cov_ref[(a, a)] * cov_ref[(b, b)]).sqrt();
-                    if !((cov[(a, b)] - cov[(b, a)]).abs() <= tol_rel * sc) {
+                    if !((cov[(a, b)] - cov[(b, a)]).abs() <= tol_rel * ref_max) {
                         ctx.with(|s| s.violate("C13", "asymmetric", cj(), format!("cov[{},{}]={:e} vs cov[{},{}]={:e}", a, b, cov[(a, b)], b, a, cov[(b, a)])));
                     }
                 }
@@ -590,7 +597,7 @@ fn cov_cases(thorough: bool) -> Vec<Case> {
                     continue;
                 }
                 for extra in [1usize, 4] {
-                    for w in [WKind::None, WKind::Ramp, WKind::InvSigma, WKind::Tiny] {
+                    for w in [WKind::None, WKind::Ramp, WKind::InvSigma, WKind::Tiny, WKind::Huge] {
                         for nv in [0u64, 1, 2] {
                             for amp in [1.0, 1e-5, 1e5] {
                                 for f32_ in [false, true] {
@@ -610,7 +617,7 @@ fn cov_cases(thorough: bool) -> Vec<Case> {
     }
     for fam in [Family::Exp1Off, Family::Exp2Off, Family::Exp3, Family::GaussDecayOff, Family::OLeary] {
         for n in [fam.m() + fam.p() + 2, 24, 60] {
-            for w in [WKind::None, WKind::Ramp, WKind::InvSigma, WKind::Tiny, WKind::Spread] {
+            for w in [WKind::None, WKind::Ramp, WKind::InvSigma, WKind::Tiny, WKind::Huge, WKind::Spread] {
                 for nv in [0u64, 1, 2] {
                     for amp in [1.0, 1e-5, 1e5] {
                         for f32_ in [false, true] {
